@@ -280,7 +280,42 @@ fn rand128(r: &mut StdRng) -> i128 {
     }
 }
 
+/// 2^k (k <= 255), optionally +-1, with a sign: the boundary lattice of the 256-bit operations
+fn pow2_256(k: usize, delta: i8, neg: bool) -> Big {
+    let mut m = vec![0u8; 33];
+    m[32 - k / 8] |= 1 << (k % 8);
+    // add / subtract one on the magnitude
+    if delta > 0 {
+        for i in (0..33).rev() {
+            let (v, c) = m[i].overflowing_add(1);
+            m[i] = v;
+            if !c { break; }
+        }
+    } else if delta < 0 {
+        for i in (0..33).rev() {
+            let (v, b) = m[i].overflowing_sub(1);
+            m[i] = v;
+            if !b { break; }
+        }
+    }
+    Big { neg, mag: m }.norm()
+}
+
+fn lattice256(r: &mut StdRng) -> Big {
+    let k = *pick(r, &[0usize, 1, 63, 64, 126, 127, 128, 129, 191, 192, 253, 254, 255]);
+    let delta = *pick(r, &[0i8, 0, 0, 1, -1]);
+    let neg = r.gen_bool(0.5);
+    // magnitudes beyond the 256-bit range do not exist: 2^255 is I256::MIN only, 2^255 - 1 is I256::MAX
+    if k == 255 {
+        return if delta < 0 { pow2_256(255, -1, neg) } else { pow2_256(255, 0, true) };
+    }
+    pow2_256(k, delta, neg)
+}
+
 fn rand256(r: &mut StdRng) -> Big {
+    if r.gen_ratio(2, 5) {
+        return lattice256(r);
+    }
     let bits = r.gen_range(0..=255usize);
     let mut m = vec![0u8; 32];
     for i in 0..bits {
@@ -332,6 +367,22 @@ fn main() {
                                   (i128::MAX, 2, 2), (i128::MIN, 2, 2), (i128::MIN, 3, -3), (i128::MAX, 3, 2), (i128::MIN, 3, 2), (i128::MIN, 3, -2),
                                   (0, 5, 3), (0, 5, -3), (7, 1, 2), (-7, 1, 2), (7, 1, -2), (-7, 1, -2)] {
                     t.step(sys.step(&json!({"op": "i128", "mode": mode, "x": h(x), "y": h(y), "d": h(d)})));
+                }
+            }
+            // directed I256 cases: products exactly at and next to -2^255 / 2^255 - 1, every rounding mode
+            for mode in modes.iter().copied().filter(|_| seed % 1000 == 0) {
+                let p = |k: usize, d: i8, n: bool| pow2_256(k, d, n).hex();
+                let one = || Big::from_i128(1).hex();
+                for (x, y) in [(p(255, 0, true), one()), (p(128, 0, true), p(127, 0, false)), (p(127, 0, false), p(128, 0, true)),
+                               (p(255, -1, false), one()), (p(255, -1, true), one()), (p(128, 0, false), p(127, 0, false)),
+                               (p(128, 0, true), p(127, 0, true)), (p(255, 0, true), Big::from_i128(-1).hex()),
+                               (p(254, 0, true), Big::from_i128(2).hex()), (p(254, 0, false), Big::from_i128(2).hex())] {
+                    for d in [1i128, -1, 2, -2, 3, -3, 7, i128::MAX, i128::MIN] {
+                        t.step(sys.step(&json!({"op": "i256", "mode": mode, "x": x, "y": y, "d": Big::from_i128(d).hex()})));
+                    }
+                    for d in [p(255, 0, true), p(255, -1, false), p(200, 1, true)] {
+                        t.step(sys.step(&json!({"op": "i256", "mode": mode, "x": x, "y": y, "d": d})));
+                    }
                 }
             }
             for _ in 0..runs {
